@@ -89,6 +89,8 @@ impl<F: FixedChannelRegion> FixedChannelPlan<F> {
 }
 
 pub(crate) trait FixedChannelRegion: ChannelRegion {
+    /// Data rate used for join requests on the 500 kHz channels (64 to 71)
+    const JOIN_DR_500KHZ: DR;
     fn uplink_channels() -> &'static [u32; 72];
     fn downlink_channels() -> &'static [u32; 8];
     fn get_rx_datarate(tx_dr: DR, rx1_dr_offset: u8, window: &Window) -> DR;
@@ -191,7 +193,7 @@ impl<F: FixedChannelRegion> RegionHandler for FixedChannelPlan<F> {
                 let dr = if channel < 64 {
                     DR::_0
                 } else {
-                    DR::_4
+                    F::JOIN_DR_500KHZ
                 };
                 (dr, channel)
             }
@@ -205,7 +207,7 @@ impl<F: FixedChannelRegion> RegionHandler for FixedChannelPlan<F> {
                     let dr = if channel < 64 {
                         DR::_0
                     } else {
-                        DR::_4
+                        F::JOIN_DR_500KHZ
                     };
                     (dr, channel)
                 // Alternatively, we will ask JoinChannel logic to determine a channel from the
